@@ -62,3 +62,13 @@ package content
 //@   ensures [C05:nil-means-exact] result1 == nil ==> desc.Size >= 0 && len(result0) == desc.Size && matched(r, desc)
 //@   ensures [C05:negative-size] desc.Size < 0 ==> result1 == ErrInvalidDescriptorSize
 //@   ensures [monotone] forall s io.Reader, d ocispec.Descriptor :: old(matched(s, d)) ==> matched(s, d)
+//@
+//@ import context "context"
+//@ import descriptor "oras.land/oras-go/v2/internal/descriptor"
+//@ pure succOf(p descriptor.Descriptor, s descriptor.Descriptor) bool
+//@
+//@ func Successors
+//@   trusted
+//@   ensures [content-addressed] result1 == nil ==> (forall i int :: 0 <= i && i < len(result0) ==> succOf(K(node), K(result0[i])))
+//@   ensures [content-addressed] result1 == nil ==> (forall s descriptor.Descriptor :: succOf(K(node), s) ==> (exists i int :: 0 <= i && i < len(result0) && K(result0[i]) == s))
+//@   modifies alloc, elems[ocispec.Descriptor], elems[byte]
